@@ -1,6 +1,9 @@
 package main
 
 import (
+	"verif/internal/refdev"
+	"verif/internal/refder"
+	"verif/internal/refauth2"
 	"context"
 	"time"
 	"bytes"
@@ -226,12 +229,23 @@ func c19SignedUpdate(cs *certSet) (*c19Obj, error) {
 
 // c19DecodedDescriptor: an authentication descriptor as a reader of a signed update sees it
 // (decoded from bytes, not built by SignEFIVariable).
-func c19DecodedDescriptor(cs *certSet) (*c19Obj, error) {
+func c19DecodedDescriptor(cs *certSet, wrapped bool) (*c19Obj, error) {
 	_, m, err := signature.SignEFIVariable(efivar.Db, c12db(2, 4), cs.Key.Priv, cs.Cert)
 	if err != nil {
 		return nil, err
 	}
 	raw := m.Bytes()
+	kind := "descriptor-decoded"
+	if wrapped {
+		// the certificate data inside a ContentInfo, as openssl and some sbvarsign versions write it
+		kind = "descriptor-decoded-contentinfo"
+		a, n, perr := refauth2.ParseAuth2(raw)
+		if perr != nil {
+			return nil, perr
+		}
+		w := refder.TLV(0x30, refder.TLV(0x06, refder.OID(1, 2, 840, 113549, 1, 7, 2)), refder.TLV(0xA0, a.Data))
+		raw = append(refauth2.BuildAuth2(a.RawTime, 0x0200, 0x0EF1, a.TypeGUID, w), raw[n:]...)
+	}
 	mk := func() (*signature.EFIVariableAuthentication2, error) {
 		return signature.ReadEFIVariableAuthencation2(bytes.NewReader(raw))
 	}
@@ -240,7 +254,7 @@ func c19DecodedDescriptor(cs *certSet) (*c19Obj, error) {
 		return nil, err
 	}
 	build := func(av *signature.EFIVariableAuthentication2) *c19Obj {
-		o := &c19Obj{kind: "descriptor-decoded", ops: []string{"Marshal", "Verify", "Header.Write", "UEFIGUID.Write"}}
+		o := &c19Obj{kind: kind, ops: []string{"Marshal", "Verify", "Header.Write", "UEFIGUID.Write"}}
 		o.call = func(op string) string {
 			switch op {
 			case "Marshal":
@@ -283,6 +297,44 @@ func c19DecodedDescriptor(cs *certSet) (*c19Obj, error) {
 		}
 		o.expect[op] = f.call(op)
 	}
+	return o, nil
+}
+
+// c19BootStore: one in-memory store whose boot entries and databases are looked up by name.
+func c19BootStore() (*c19Obj, error) {
+	useFakeEfivarsDir()
+	files := map[string][]byte{}
+	var bo []byte
+	for _, n := range []int{1, 2, 3, 0x1A} {
+		lo, _ := refdev.LoadOption{Attributes: 1, Description: bootName(n)}.Encode()
+		files[varPath(bootName(n), globalGUID)] = withAttrs(7, lo)
+		bo = append(bo, byte(n), byte(n>>8))
+	}
+	files[varPath("BootOrder", globalGUID)] = withAttrs(7, bo)
+	files[varPath("db", "d719b2cb-3d3a-4596-a3bc-dad00e67656f")] = withAttrs(0x27, c12db(3, 8).Bytes())
+	e := newStore(files)
+	o := &c19Obj{kind: "store-lookups", ops: []string{"GetBootEntry(Boot0001)", "GetBootEntry(Boot0002)", "GetBootEntry(Boot001A)", "GetBootOrder", "Getdb"}}
+	o.call = func(op string) string {
+		switch op {
+		case "GetBootOrder":
+			return fmt.Sprint(e.GetBootOrder())
+		case "Getdb":
+			db, err := e.Getdb()
+			if err != nil || db == nil {
+				return "error"
+			}
+			return dig(db.Bytes())
+		default:
+			name := op[len("GetBootEntry(") : len(op)-1]
+			lo, err := e.GetBootEntry(name)
+			if err != nil || lo == nil {
+				return "error"
+			}
+			return lo.Description
+		}
+	}
+	// the predefined definitions are shared by every store of the process: lookups must leave them alone
+	o.state = func() string { return fmt.Sprint(efivar.BootEntry.Name, efivar.BootEntry.Attributes, efivar.Db.Name, efivar.BootOrder.Name) }
 	return o, nil
 }
 
@@ -365,7 +417,13 @@ func c19Objects(dir string) ([]*c19Obj, error) {
 	if err := add(c19SignedUpdate(cs)); err != nil {
 		return nil, err
 	}
-	if err := add(c19DecodedDescriptor(cs)); err != nil {
+	if err := add(c19DecodedDescriptor(cs, false)); err != nil {
+		return nil, err
+	}
+	if err := add(c19DecodedDescriptor(cs, true)); err != nil {
+		return nil, err
+	}
+	if err := add(c19BootStore()); err != nil {
 		return nil, err
 	}
 	return objs, nil
@@ -668,8 +726,8 @@ func checkC19(r *mon.Run) {
 	}
 	c19Cold(r, raceBin)
 	r.Floor("sequential_orders", 120*8)
-	r.Floor("concurrent_rounds", int64(rounds*9))
-	r.Floor("object_kinds_with_overlap", 9)
+	r.Floor("concurrent_rounds", int64(rounds*11))
+	r.Floor("object_kinds_with_overlap", 11)
 }
 
 // raceKey de-duplicates race reports by the pair of outermost library entry points.
